@@ -1031,12 +1031,12 @@ def _c03_scenarios(quick, seed):
     # a thread that cannot stop for a while: it sits in vfork() until its child exits (1.5 s).  The attach succeeds, the stop is
     # reported only then; whatever the dump does meanwhile, afterwards nothing may be left attached and the thread runs on
     for k, at in enumerate([{"hook": "suspended"}, {"hook": "attach:ok", "slot": 0}]):
-        s = mk(f"slow-stop/vfork/{k}", [{"at": at, "do": "signal", "sig": "rt", "to_slot": 0}], settle_ms=2200)
-        s["target"] = {"shared": True, "threads": [{"mode": "heartbeat"}, {"mode": "vfork", "vfork_ms": 1500}, {"mode": "pause", "stack_pages": 2, "sp_off": 6000}], "regions": [{"name": "app0", "len": 256}]}
+        s = mk(f"slow-stop/vfork/{k}", [{"at": at, "do": "signal", "sig": "rt", "to_slot": 0}], settle_ms=4200)
+        s["target"] = {"shared": True, "threads": [{"mode": "heartbeat"}, {"mode": "vfork", "vfork_ms": 3500}, {"mode": "pause", "stack_pages": 2, "sp_off": 6000}], "regions": [{"name": "app0", "len": 256}]}
         scns.append(s)
     # ... and while the dump waits for that thread's stop, the dumping thread itself is interrupted by a handled signal (EINTR)
-    s = mk("slow-stop/vfork/interrupted-wait", [], settle_ms=2200, faults={"interrupt_wait": True})
-    s["target"] = {"shared": True, "threads": [{"mode": "heartbeat"}, {"mode": "vfork", "vfork_ms": 1500}, {"mode": "pause", "stack_pages": 2, "sp_off": 6000}], "regions": [{"name": "app0", "len": 256}]}
+    s = mk("slow-stop/vfork/interrupted-wait", [], settle_ms=4200, faults={"interrupt_wait": True})
+    s["target"] = {"shared": True, "threads": [{"mode": "heartbeat"}, {"mode": "vfork", "vfork_ms": 3500}, {"mode": "pause", "stack_pages": 2, "sp_off": 6000}], "regions": [{"name": "app0", "len": 256}]}
     scns.append(s)
     # two dumps in a row on one writer, signals in between and during
     scns.append(dict(mk("twice", [{"at": {"hook": "suspended"}, "do": "signal", "sig": "rt", "to_slot": 0}]), history=[{"op": "dump"}, {"op": "dump", "actions": [{"at": {"hook": "attach:ok", "slot": 1}, "do": "signal", "sig": "rt", "to_slot": 1}]}]))
